@@ -77,6 +77,12 @@ CHECKS = {
         text="K04a: for every nesting depth 0..3, module/package/class scope and module part, CrossHair exhausts the paths of visit_ImportFrom for a symbolic level 1..5 (7) and the bound name equals importlib._bootstrap._resolve_name's result, or nothing is bound and a report issued when Python refuses. K04b/c: plain imports and 380 project shapes (11 import forms x scope x depth x 5 uses x optional third module): for every name CPython binds in every module and class namespace, resolveName gives that object or None, and never None for names imported directly from the defining module or through a module alias.",
         note="Trusted: CrossHair exhaustion verdict; importlib._bootstrap._resolve_name and CPython's import system (in-memory finder) as oracles. K04c is bounded-exhaustive (class E).",
     ),
+    "C02": dict(
+        level="exploration", design="DESIGN.md §3 C02",
+        technique="CrossHair (z3) enumerates every shape of a project-template space and certifies exhaustion; the real System.process() runs on each shape and the statement's invariants are evaluated on the resulting model",
+        text="Bounded-exhaustive exploration (class E): all 6 240 (thorough 24 960) project shapes - definition kind, duplicate definitions, nested class, re-export form, origin __all__, local definition of the exported name, consumer form, import cycle, zope interfaces, field-documented attribute - are built by the real builder and the final model satisfies I1..I8 (registry key = qualified name, entry of its parent or superseded, reachable from a root, kind fits place, linearisation starts with the class and holds each resolved base once, subclasses inverse of bases, implementedby inverse of implements, page file names distinct). Not stronger than enumeration of the template space.",
+        note="Trusted: CrossHair's exhaustion verdict over the choice variables; lib/templates.py as the project generator; invariants as my reading of the statement.",
+    ),
 }
 
 NOT_APPLICABLE = {
